@@ -7,6 +7,10 @@ TRANSPARENT = {"ExprWithCleanups", "MaterializeTemporaryExpr", "CXXBindTemporary
 LOG_CALLS = {"_xbt_log_event_log", "_xbt_log_cat_init"}
 ABORT_CALLS = {"xbt_abort", "abort"}
 DROP_CALLS = {"xbt_backtrace_display_current"}
+# wrappers W(closure, ...) whose meaning for the calling actor is "run the closure once, now, and return its result"
+# (simcall_answered: the kernel runs the closure in maestro context while the caller is blocked). The closure is lifted
+# into a C function and called in place; the assumption is reported in gen.json "dropped".
+SYNC_WRAPPERS = {"simcall_answered"}
 ARITH_CASTS = {"IntegralCast", "FloatingToIntegral", "IntegralToFloating", "FloatingCast", "IntegralToBoolean",
                "FloatingToBoolean", "PointerToBoolean", "BooleanToSignedIntegral", "PointerToIntegral",
                "IntegralToPointer"}
@@ -60,10 +64,13 @@ class Emitter:
         self.globals = {}  # cname -> ctype
         self.const_globals = {}  # cname -> (C++ name, tu) of globals used as compile-time constants
         self.enum_consts = {}  # C name -> (enum type, const name)
-        self.lifted = []  # extra function texts (lambdas)
+        self.lifted = []  # extra function texts (lambdas, per-call-site models of std algorithms)
+        self.lifted_units = []  # their descriptions {cname, of, kind, loops}
+        self.upcasts = set()  # (derived tag, base tag) pointer conversions emitted as plain casts
         self.unit = None
         self.refvars = [set()]
         self.renames = self.cfg.get("rename", {})
+        self.const_types = {}  # const_globals name -> C type
         self.lib = libmap
         self.dropped = []
         self.callees = {}  # cname -> description
@@ -143,6 +150,11 @@ class Emitter:
     def note_proto(self, cname, ret, params, src, variadic=False):
         old = self.protos.get(cname)
         new = (ret, tuple(params), variadic)
+
+        def canon(p):  # size_t and unsigned long are the same C type on the LP64 target: not a collision
+            return (re.sub(r"\bsize_t\b", "unsigned long", p[0]), tuple(re.sub(r"\bsize_t\b", "unsigned long", x) for x in p[1]), p[2])
+        if old and canon(old[:3]) == canon(new):
+            return
         if old and (old[0], old[1], old[2]) != new:
             raise Unsupported("C name collision for %s: %s vs %s (add a rename in the spec config)" %
                               (cname, old[:3], new))
@@ -167,7 +179,44 @@ class Emitter:
         m = getattr(self, "e_" + k, None)
         if m is None:
             raise Unsupported("expression kind %s" % k)
+        if k in ("CallExpr", "CXXMemberCallExpr"):
+            return self.nested_call(n, m)
+        if k == "ConditionalOperator" or (k == "BinaryOperator" and n.get("opcode") in ("&&", "||")):
+            self.lazy_depth = getattr(self, "lazy_depth", 0) + 1
+            try:
+                return m(n)
+            finally:
+                self.lazy_depth -= 1
         return m(n)
+
+    def nested_call(self, n, m):
+        """A call to a non-model function that is evaluated INSIDE another call (as its argument), e.g.
+        memcpy(f(x), src, n): the exception model's `if (vf_exc) return` after the whole statement would come too
+        late (the outer call would run on f's dummy return value, whereas the real program has already aborted).
+        Such an inner call is hoisted into a temporary followed by the propagation test. Not done under ?: && ||
+        (evaluation there is conditional) nor for calls returning references/void/structs."""
+        depth = getattr(self, "call_depth", 0)
+        self.call_depth = depth + 1
+        before = self.callflag
+        self.callflag = False
+        try:
+            e = m(n)
+        finally:
+            self.call_depth = depth
+        mine, self.callflag = self.callflag, (before or self.callflag)
+        if not (mine and depth > 0 and getattr(self, "lazy_depth", 0) == 0 and self.cfg.get("exceptions", True)):
+            return e
+        if n.get("valueCategory") != "prvalue" or e.startswith("(*"):
+            return e
+        try:
+            ct = self.ctype(n)
+        except Unsupported:
+            return e
+        if ct == "void" or (ct.startswith("struct ") and not ct.endswith("*")):
+            return e
+        tmp = self.new_tmp(ct, e)
+        self.pre.append("if (vf_exc) " + self.ret_zero())
+        return tmp
 
     def e_transparent(self, n):
         return self.E(n["inner"][0])
@@ -275,6 +324,10 @@ class Emitter:
         if name in self.cfg.get("const_globals", {}):
             # compile-time constant of the real code: evaluated by the real compiler (cxx2c.eval_constants)
             self.const_needed.add(name)
+            try:  # keep the constant's own type (an `unsigned` flag must not become a signed int literal)
+                self.const_types[name] = self.ctype((rd.get("type") or {}).get("desugaredQualType") or rd["type"]["qualType"])
+            except Unsupported:
+                pass
             return "VFC_" + ident(name)
         gmap = self.cfg.get("globals", {})
         cn = gmap.get(name, ident(name))
@@ -340,6 +393,10 @@ class Emitter:
         if ck == "BitCast":
             return "((%s)%s)" % (self.ctype(n), self.paren(self.E(inner)))
         if ck in ("DerivedToBase", "UncheckedDerivedToBase"):
+            sct, dct = self.try_ctype(inner), self.try_ctype(n)
+            if sct is not None and sct == dct and (not sct.startswith("struct ") or sct.endswith("*") or
+                                                   sct.startswith("struct vf_")):
+                return self.E(inner)  # library class and its base mapped to the same scalar / same model type
             return self.derived_to_base(n, inner)
         if ck == "BaseToDerived":
             return self.base_to_derived(n, inner)
@@ -354,6 +411,9 @@ class Emitter:
         path = self.cast_path(n, dtag)
         if not path:
             raise Unsupported("derived-to-base cast without path")
+        dct = self.try_ctype(n)
+        if len(path) == 1 and dct and dct.rstrip("*").startswith("struct vf_"):
+            path = [dct.rstrip("*")[len("struct "):]]  # class deriving from a modelled std container: base = the model
         e = self.paren(self.E(inner))
         cur = dtag
         acc = (e + "->") if is_ptr else (e + ".")
@@ -448,11 +508,32 @@ class Emitter:
         op = n["opcode"]
         if op == ",":
             return "(%s, %s)" % (self.E(a), self.E(b))
+        if op == "&&" and self.is_log_isenabled(n):
+            # XBT_LOG_ISENABLED(cat, prio): run-time logging configuration = unconstrained environment flag
+            self.globals["vf_log_enabled"] = "_Bool"
+            return "vf_log_enabled"
         if op == "=" and self.try_ctype(a) and self.try_ctype(a).startswith("struct vf_str"):
             pass
         return "%s %s %s" % (self.paren(self.E(a)), op, self.paren(self.E(b)))
 
     e_CompoundAssignOperator = e_BinaryOperator
+
+    @staticmethod
+    def is_log_isenabled(n):
+        """structural match of _XBT_LOG_ISENABLEDV: (prio >= STATIC && (cat.initialized || _xbt_log_cat_init(..))) && prio >= cat.threshold"""
+        def noparen(x):
+            while x.get("kind") in ("ParenExpr", "ImplicitCastExpr"):
+                x = x["inner"][0]
+            return x
+        l = noparen(n["inner"][0])
+        if l.get("kind") != "BinaryOperator" or l.get("opcode") != "&&":
+            return False
+        o = noparen(l["inner"][1])
+        if o.get("kind") != "BinaryOperator" or o.get("opcode") != "||":
+            return False
+        c = noparen(o["inner"][1])
+        return c.get("kind") == "CallExpr" and \
+            skip(c["inner"][0]).get("referencedDecl", {}).get("name") == "_xbt_log_cat_init"
 
     def e_CXXRewrittenBinaryOperator(self, n):
         return self.E(n["inner"][0])
@@ -560,6 +641,10 @@ class Emitter:
                 tmp = self.new_tmp(ct, self.E(inner))
                 return "&" + tmp
             core = core["inner"][0]
+        if core.get("kind") == "ConditionalOperator" and core.get("valueCategory") == "lvalue":
+            # C has no lvalue conditional: &(c ? a : b) -> (c ? &a : &b)
+            c, a, b = core["inner"]
+            return "(%s ? %s : %s)" % (self.paren(self.E(c)), self.addr_of(a), self.addr_of(b))
         e = self.E(core)
         if core.get("valueCategory") == "prvalue":
             tmp = self.new_tmp(self.ctype(core), e)
@@ -599,6 +684,9 @@ class Emitter:
             rd = c["referencedDecl"]
             name = rd["name"]
             fnt = (rd.get("type") or {}).get("qualType")
+            if name in self.cfg.get("sync_wrappers", SYNC_WRAPPERS) and args and \
+                    skip(args[0]).get("kind") == "LambdaExpr":
+                return self.call_lambda_now(skip(args[0]), n, name)
             r = self.lib.free_call(self, n, name, args, fnt) if self.lib else None
             if r is not None:
                 return r
@@ -607,7 +695,16 @@ class Emitter:
             if name in DROP_CALLS:
                 self.dropped.append(name)
                 return "((void)0)"
+            # plain call of a CXXMethodDecl = static member function. clang's JSON gives no qualifier for the callee, so the
+            # class is only known when the callee is itself a configured unit `...::Class::name`: then it is named like
+            # that unit (Class__name); any other static callee keeps its bare name, as before.
             cname = self.fn_cname(None, name, fnt)
+            if cname == self.op_name(name) and rd.get("kind") == "CXXMethodDecl":  # no explicit rename applies
+                cands = [u for u in self.cfg.get("units", [])
+                         if len(u["name"].split("::")) >= 2 and u["name"].split("::")[-1] == name]
+                if len(cands) == 1:  # unambiguous: named like that unit
+                    cname = cands[0].get("cname") or \
+                        self.fn_cname(self.tm.struct_tag(cands[0]["name"].split("::")[-2]), name, fnt)
             params = self.fn_params_from(fnt)
             a = self.call_args(args, params)
             ret, isref = self.ret_ctype_from(fnt)
@@ -683,8 +780,8 @@ class Emitter:
         ret = self.ctype(n)
         if isref:
             ret += "*"
-        cname = self.fn_cname(tag, name, None)
-        # overloads distinguished by arity: config rename {"Class__name/<number of arguments>": cname}
+        cname = self.fn_cname(tag, name, ",".join(pcs))  # overloads: rename key "Class__m|<inferred C param types>"
+        # overloads may also be distinguished by arity: config rename {"Class__name/<number of arguments>": cname}
         cname = self.renames.get("%s/%d" % (cname, len(args)), cname)
         pc = (["struct %s*" % tag] if obj is not None else []) + pcs
         self.note_proto(cname, ret, pc, "%s::%s (signature inferred at call site)" % (tag, name))
@@ -733,6 +830,257 @@ class Emitter:
             return r
         raise Unsupported("lambda in this position")
 
+    # ---- lambda lifting: closure -> lifted C function `ret f(void* __env, params)` + capture struct; the closure
+    #      value is a struct vf_fn {fn, env} (same representation as a modelled std::function)
+    UNIT_STATE = ("unit", "unit_ret", "unit_ret_isref", "locals", "local_names", "ref_ids", "used_local_names", "pre",
+                  "cn", "callflag")
+
+    @staticmethod
+    def lambda_call_op(rec):
+        """the operator() definition of a closure class (for a generic lambda: its last concrete instantiation)"""
+        def has_body(m):
+            return any(c.get("kind") == "CompoundStmt" for c in m.get("inner", []))
+        for c in rec.get("inner", []):
+            if c.get("kind") == "CXXMethodDecl" and c.get("name") == "operator()" and has_body(c):
+                return c
+        for c in rec.get("inner", []):
+            if c.get("kind") == "FunctionTemplateDecl" and c.get("name") == "operator()":
+                ms = [m for m in c.get("inner", []) if m.get("kind") == "CXXMethodDecl" and has_body(m) and
+                      not re.search(r"\bauto\b", m.get("type", {}).get("qualType", ""))]
+                if len(ms) == 1:
+                    return ms[0]
+                raise Unsupported("generic lambda with %d instantiations" % len(ms))
+        raise Unsupported("lambda without operator() body")
+
+    @staticmethod
+    def captured_entity(init):
+        """what a capture initialiser designates: ('this', None) or ('var', referencedDecl)"""
+        core = init
+        while True:
+            core = skip(core)
+            k = core.get("kind")
+            if k == "CXXConstructExpr" and len(core.get("inner", [])) == 1:
+                core = core["inner"][0]  # by-copy capture of a class-typed variable: copy constructor
+                continue
+            if k == "CXXThisExpr":
+                return "this", None
+            if k == "DeclRefExpr" and core["referencedDecl"].get("kind") in ("ParmVarDecl", "VarDecl"):
+                return "var", core["referencedDecl"]
+            raise Unsupported("lambda capture initialised by %s (init-capture / *this are outside the subset)" % k)
+
+    def lift_lambda(self, n, heap=False):
+        """LambdaExpr -> expression of type struct vf_fn. The body becomes the function <unit>__lambda<k>(void* __env,
+        params...) (emitted before the units, prototype in gen.h, so a spec may give it a contract); captures travel in
+        struct <unit>__lambda<k>_env: by-reference captures as pointers, by-copy captures as values, `this` as `self`.
+        heap=True (closure stored in a std::function slot, may outlive the block): the capture struct is malloc'ed."""
+        inner = n.get("inner", [])
+        if not inner or inner[0].get("kind") != "CXXRecordDecl":
+            raise Unsupported("lambda without closure class")
+        rec = inner[0]
+        op = self.lambda_call_op(rec)
+        fields = [c for c in rec.get("inner", []) if c.get("kind") == "FieldDecl"]
+        inits = [c for c in inner[1:] if c.get("kind") != "CompoundStmt"]
+        if len(fields) != len(inits):
+            raise Unsupported("lambda: %d capture fields but %d initialisers" % (len(fields), len(inits)))
+        outer = self.unit
+        k = getattr(outer, "lambdas", 0)
+        outer.lambdas = k + 1
+        cname = "%s__lambda%d" % (outer.cname, k)
+        envtag = cname + "_env"
+        caps, vals = [], []  # (field name, field ctype, by_ref, referenced decl or None), initialiser C expressions
+        for f, init in zip(fields, inits):
+            what, rd = self.captured_entity(init)
+            ft = parse(qt(f))
+            if what == "this":
+                caps.append(("self", self.tm.c(ft), False, None))
+                vals.append("self")
+                continue
+            by_ref = ft.kind in ("ref", "rref")
+            fct = self.tm.c(ft.to) + "*" if by_ref else self.tm.c(ft)
+            fname = ident(rd.get("name") or "cap%d" % len(caps))
+            caps.append((fname, fct, by_ref, rd))
+            vals.append(self.addr_of(init) if by_ref else self.E(init))
+        optype = op.get("type", {}).get("qualType", "")
+        if any(not c[2] and c[3] is not None for c in caps) and not re.search(r"\)\s*const\b", optype):
+            raise Unsupported("mutable lambda with by-copy captures")
+        for fname, fct, _, _ in caps:
+            self.field(envtag, fname, fct)
+
+        def prologue():
+            if not caps:
+                return []
+            out = ["struct %s* __cap = (struct %s*)__env;" % (envtag, envtag)]
+            for fname, fct, by_ref, rd in caps:
+                if rd is None:
+                    out.append("%s self = __cap->self;" % fct)
+                    continue
+                name = self.decl_local({"id": rd["id"], "name": rd.get("name")}, by_ref)
+                out.append("%s %s = __cap->%s;" % (fct, name, fname))
+            return out
+
+        saved = {a: getattr(self, a) for a in self.UNIT_STATE}
+        try:
+            sig, text, unit = self.emit_function(op, cname, None, env_prologue=prologue)
+        finally:
+            for a, v in saved.items():
+                setattr(self, a, v)
+        macros = "".join("#ifndef VF_LOOP_%s_%d\n#define VF_LOOP_%s_%d\n#endif\n" % (cname, j, cname, j)
+                         for j in range(unit.loops))
+        self.lifted.append("%s/* ---- lambda %d of %s ---- */\n%s" % (macros, k, outer.cname, text))
+        self.unit_names.add(cname)
+        self.lifted_units.append({"cname": cname, "of": outer.cname, "kind": "lambda", "loops": unit.loops})
+        self.callflag = True  # the body may run (now or later) and raise
+        fn = "(vf_fnptr)%s" % cname
+        if not caps:
+            return "((struct vf_fn){%s, 0})" % fn
+        if heap:
+            self.unit.tmp += 1
+            tmp = "__t%d" % self.unit.tmp
+            self.pre.append("struct %s* %s = (struct %s*)malloc(sizeof(struct %s));" % (envtag, tmp, envtag, envtag))
+            self.pre.append("__CPROVER_assume(%s != 0);" % tmp)
+            self.pre.append("*%s = (struct %s){%s};" % (tmp, envtag, ", ".join(vals)))
+            return "((struct vf_fn){%s, %s})" % (fn, tmp)
+        tmp = self.new_tmp("struct " + envtag, "{%s}" % ", ".join(vals))
+        return "((struct vf_fn){%s, &%s})" % (fn, tmp)
+
+    def fn_elem_call(self, f, pct, ect, ret):
+        """C expression calling the vf_fn value `f` on the sequence element b[i] (parameter ctype pct, element ctype ect)"""
+        if pct == ect:
+            a = "b[i]"
+        elif pct == ect + "*":
+            a = "&b[i]"
+        else:
+            raise Unsupported("callable takes %s but the elements are %s" % (pct, ect))
+        return "((%s (*)(void*, %s))%s.fn)(%s.env, %s)" % (ret, pct, f, f, a)
+
+    ALGO_BODIES = {
+        # name -> (return ctype or None = element pointer, body template); CALL = predicate on b[i]; loop ordinal 0
+        "find_if": (None, "  for (; i < cnt; i++)\n    LOOP\n  {\n    if (CALL) break;\n    EXC\n  }\n  return b + i;\n"),
+        "find_if_not": (None, "  for (; i < cnt; i++)\n    LOOP\n  {\n    if (!CALL) break;\n    EXC\n  }\n  return b + i;\n"),
+        "any_of": ("_Bool", "  for (; i < cnt; i++)\n    LOOP\n  {\n    if (CALL) break;\n    EXC\n  }\n  return i < cnt;\n"),
+        "none_of": ("_Bool", "  for (; i < cnt; i++)\n    LOOP\n  {\n    if (CALL) break;\n    EXC\n  }\n  return !(i < cnt);\n"),
+        "all_of": ("_Bool", "  for (; i < cnt; i++)\n    LOOP\n  {\n    if (!CALL) break;\n    EXC\n  }\n  return !(i < cnt);\n"),
+        "count_if": ("long", "  long c = 0;\n  for (; i < cnt; i++)\n    LOOP\n  {\n    if (CALL) c++;\n    EXC\n  }\n  return c;\n"),
+        "for_each": ("struct vf_fn", "  for (; i < cnt; i++)\n    LOOP\n  {\n    CALL;\n    EXC\n  }\n  return f;\n"),
+        "remove_if": (None, "  size_t w = 0;\n  for (; i < cnt; i++)\n    LOOP\n  {\n    _Bool r = CALL;\n    EXC\n"
+                            "    if (!r) { b[w] = b[i]; w++; }\n  }\n  return b + w;\n"),
+    }
+
+    def algo_call(self, n, name, args):
+        """std::<name>(first, last, callable) over a modelled sequence -> call of a per-call-site model function
+        <unit>__<name><k>(T* b, T* e, struct vf_fn f) whose loop is VF_LOOP_<unit>__<name><k>_0 (the spec supplies the
+        loop contract: only the spec knows the predicate). The callable is called through the struct vf_fn."""
+        ret0, tmpl = self.ALGO_BODIES[name]
+        ct = self.try_ctype(args[0])
+        if ct is None or not ct.endswith("*") or self.try_ctype(args[1]) != ct:
+            return None
+        ect = ct[:-1]
+        core = skip(args[2])
+        while core.get("kind") == "CXXConstructExpr" and len(core.get("inner", [])) == 1:
+            core = skip(core["inner"][0])  # copy/move of the closure into the by-value parameter
+        b, e = self.E(args[0]), self.E(args[1])
+        if core.get("kind") == "LambdaExpr":
+            fv = self.lift_lambda(core)
+            lam = self.lifted_units[-1]["cname"]
+            pcs = self.protos[lam][1]
+            if len(pcs) != 2:
+                raise Unsupported("std::%s with a callable of %d parameters" % (name, len(pcs) - 1))
+            pct, pret = pcs[1], self.protos[lam][0]
+        elif self.try_ctype(args[2]) == "struct vf_fn":
+            fv = self.E(args[2])
+            pct = ect if (not ect.startswith("struct ") or ect.endswith("*")) else ect + "*"
+            pret = "void" if name == "for_each" else "_Bool"
+        else:
+            return None
+        outer = self.unit
+        k = getattr(outer, "algos", 0)
+        outer.algos = k + 1
+        cname = "%s__%s%d" % (outer.cname, name, k)
+        ret = ret0 or ct
+        call = self.fn_elem_call("f", pct, ect, pret)
+        exc = "if (vf_exc) break;" if self.cfg.get("exceptions", True) else ";"
+        subst = {"LOOP": "VF_LOOP_%s_0" % cname, "CALL": call, "EXC": exc}
+        body = re.sub(r"\b(LOOP|CALL|EXC)\b", lambda m: subst[m.group(1)], tmpl)
+        text = ("#ifndef VF_LOOP_%s_0\n#define VF_LOOP_%s_0\n#endif\n/* ---- model of std::%s, call %d in %s ---- */\n"
+                "%s %s(%s b, %s e, struct vf_fn f)\n{\n  size_t cnt = (size_t)(e - b);\n  size_t i = 0;\n%s}\n" %
+                (cname, cname, name, k, outer.cname, ret, cname, ct, ct, body))
+        self.lifted.append(text)
+        self.note_proto(cname, ret, [ct, ct, "struct vf_fn"], "model of std::%s at its call site" % name)
+        self.unit_names.add(cname)
+        self.lifted_units.append({"cname": cname, "of": outer.cname, "kind": "std::" + name, "loops": 1})
+        self.callflag = True
+        return "%s(%s, %s, %s)" % (cname, b, e, fv)
+
+    def call_lambda_now(self, lam, call, wrapper):
+        """W(lambda) for a synchronous wrapper W: the closure body becomes the C function <unit>__lambda<k>; captures
+        become its parameters (this -> self, by-copy -> value, by-reference -> pointer); the call is emitted in place."""
+        rec = lam["inner"][0]
+        ops = [c for c in rec.get("inner", []) if c.get("kind") == "CXXMethodDecl" and c.get("name") == "operator()"]
+        fields = [c for c in rec.get("inner", []) if c.get("kind") == "FieldDecl"]
+        if len(ops) != 1:
+            raise Unsupported("generic lambda")
+        op = ops[0]
+        if any(c.get("kind") == "ParmVarDecl" for c in op.get("inner", [])):
+            raise Unsupported("lambda with parameters passed to %s" % wrapper)
+        body = [c for c in op.get("inner", []) if c.get("kind") == "CompoundStmt"]
+        caps = lam["inner"][1:1 + len(fields)]
+        if len(body) != 1 or len(caps) != len(fields):
+            raise Unsupported("lambda layout")
+        ret = self.ctype(call)
+        self.unit.lambdas = getattr(self.unit, "lambdas", 0) + 1
+        cname = "%s__lambda%d" % (self.unit.cname, self.unit.lambdas - 1)
+        params, ptypes, avs, binds = [], [], [], []
+        for f, cap in zip(fields, caps):
+            core = skip(cap)
+            ft = parse(qt(f))
+            if core.get("kind") == "CXXThisExpr":
+                tag = self.tm.class_tag_of(self.ptype(core))
+                params.append("struct %s* self" % tag)
+                ptypes.append("struct %s*" % tag)
+                avs.append("self")
+            elif core.get("kind") == "DeclRefExpr" and core["referencedDecl"].get("kind") in ("VarDecl", "ParmVarDecl"):
+                rd = core["referencedDecl"]
+                name = self.local_name(rd)
+                if "->" in name:
+                    raise Unsupported("capture of a structured binding")
+                if ft.kind in ("ref", "rref"):
+                    ct = self.tm.c(ft.to) + "*"
+                    avs.append(self.addr_of(core))
+                    binds.append((rd["id"], name, True))
+                else:
+                    ct = self.tm.c(ft)
+                    avs.append(self.E(cap))
+                    binds.append((rd["id"], name, False))
+                params.append("%s %s" % (ct, name))
+                ptypes.append(ct)
+            else:
+                raise Unsupported("lambda capture initialised by %s" % core.get("kind"))
+        saved = (self.unit, self.unit_ret, self.unit_ret_isref, self.locals, self.local_names, self.ref_ids,
+                 self.used_local_names, self.pre, self.cn, self.callflag)
+        unit = Unit(cname, op, self.unit.cls, "lambda")
+        self.begin_unit(unit, ret, False)
+        for did, name, isref in binds:
+            self.locals.add(did)
+            self.local_names[did] = name
+            self.used_local_names[name] = did
+            if isref:
+                self.ref_ids.add(did)
+        blines = self.s_CompoundStmt(body[0], "")
+        (self.unit, self.unit_ret, self.unit_ret_isref, self.locals, self.local_names, self.ref_ids,
+         self.used_local_names, self.pre, self.cn, self.callflag) = saved
+        text = ""
+        for k in range(unit.loops):
+            m = "VF_LOOP_%s_%d" % (cname, k)
+            text += "#ifndef %s\n#define %s\n#endif\n" % (m, m)
+        text += "/* ---- closure passed to %s in %s ---- */\n" % (wrapper, self.unit.cname)
+        text += "%s %s(%s)\n%s\n" % (ret, cname, ", ".join(params) if params else "void", "\n".join(blines))
+        self.lifted.append(text)
+        self.note_proto(cname, ret, ptypes, "closure run by %s" % wrapper)
+        self.unit_names.add(cname)
+        self.dropped.append("%s(closure) = closure run once in place" % wrapper)
+        self.callflag = True
+        return "%s(%s)" % (cname, ", ".join(avs))
+
     def e_CXXStdInitializerListExpr(self, n):
         return self.E(n["inner"][0])
 
@@ -753,6 +1101,32 @@ class Emitter:
         m = getattr(self, "s_" + k, None)
         if m is not None:
             return m(n, ind)
+        core = n
+        while core.get("kind") in TRANSPARENT:
+            core = core["inner"][0]
+        if core.get("kind") == "CXXThrowExpr":  # `throw E(temporary);` is wrapped in ExprWithCleanups
+            return self.s_CXXThrowExpr(core, ind)
+        if core.get("kind") == "BinaryOperator" and core.get("opcode") == "=" and self.cfg.get("exceptions", True):
+            # `lhs = f(..);` where f may throw: in C++ the store does not happen when f throws. The value goes through
+            # a temporary and is stored only when no exception is in flight.
+            a, b = core["inner"]
+            rct = self.try_ctype(b)
+            if rct is not None and (not rct.startswith("struct ") or rct.endswith("*")) and rct != "void":
+                saved, self.pre = self.pre, []
+                flag0, self.callflag = self.callflag, False
+                rhs = self.E(b)
+                if self.callflag:
+                    lhs = self.E(a)
+                    pre, self.pre = self.pre, saved
+                    self.unit.tmp += 1
+                    tmp = "__v%d" % self.unit.tmp
+                    out = [ind + "{"] + [ind + "  " + p for p in pre]
+                    out.append("%s  %s %s = %s;" % (ind, rct, tmp, rhs))
+                    out += self.exc_check(n, ind + "  ")
+                    out.append("%s  %s = %s;" % (ind, self.paren(lhs), tmp))
+                    out.append(ind + "}")
+                    return out
+                self.pre, self.callflag = saved, flag0
         # expression statement
         saved = self.pre
         self.pre = []
@@ -1179,8 +1553,10 @@ class Emitter:
         self.cn = 0
         self.callflag = False
 
-    def emit_function(self, node, cname, cls_tag, static=False):
-        """node: FunctionDecl / CXXMethodDecl / CXXConstructorDecl with a body. Returns C text."""
+    def emit_function(self, node, cname, cls_tag, static=False, env_prologue=None):
+        """node: FunctionDecl / CXXMethodDecl / CXXConstructorDecl with a body. Returns C text.
+        env_prologue (lifted lambdas): callable run after begin_unit; the function then takes `void* __env` as its
+        first parameter instead of `self`, and the returned lines (capture unpacking) open its body."""
         self.learn_types(node)
         kind = node["kind"]
         fnt = node["type"]["qualType"]
@@ -1189,13 +1565,17 @@ class Emitter:
             ret, isref = "void", False
         else:
             ret, isref = self.ret_ctype_from(fnt)
-        unit = Unit(cname, node, cls_tag)
+        unit = Unit(cname, node, cls_tag, "lambda" if env_prologue else "func")
         self.begin_unit(unit, ret, isref)
         params = []
-        if cls_tag and not static:
+        if env_prologue:
+            params.append("void* __env")
+        elif cls_tag and not static:
             params.append("struct %s* self" % cls_tag)
             self.structs.setdefault(cls_tag, {})
         ptypes = ["struct %s*" % cls_tag] if (cls_tag and not static) else []
+        if env_prologue:
+            ptypes = ["void*"]
         body = None
         inits = []
         for c in node.get("inner", []):
@@ -1215,6 +1595,8 @@ class Emitter:
             raise Unsupported("no body for %s" % cname)
         self.note_proto(cname, ret, ptypes, fnt if not cls_tag else "%s::%s %s" % (cls_tag, node.get("name"), fnt))
         lines = []
+        if env_prologue:
+            lines += ["  " + l for l in env_prologue()]
         for ci in inits:
             lines += self.ctor_init(ci, "  ")
         blines = self.s_CompoundStmt(body, "")
